@@ -1,5 +1,5 @@
 P = dict(
-    bin="egv_c17", trace="Trace_C17", level="model_checking", wip=True,
+    bin="egv_c17", trace="Trace_C17", level="model_checking",
     mc=[dict(module="MC_C17", quick_cfg="MC_C17.cfg", thorough_cfg="MC_C17_thorough.cfg")],
     required_events=["line"],
     level_text="TLC steps the transcribed Bresenham machine (one action per next()) for every delta of a square from two start "
